@@ -242,6 +242,8 @@ where
 {
     fn parse(input: ParseStream) -> syn::Result<Self> {
         let mut attrs = ParseableAttributes::default();
+        let mut seen_sanitize = false;
+        let mut seen_derive = false;
 
         while !input.is_empty() {
             let ident: Ident = input.parse()?;
@@ -250,6 +252,10 @@ where
                     let content;
                     parenthesized!(content in input);
                     let items = content.parse_terminated(Sanitizer::parse, Token![,])?;
+                    if seen_sanitize {
+                        return Err(duplicate_attribute_error(&ident));
+                    }
+                    seen_sanitize = true;
                     attrs.sanitizers = items.into_iter().collect();
                 } else {
                     let msg = concat!(
@@ -264,6 +270,9 @@ where
                     let content;
                     parenthesized!(content in input);
                     let validation: RawValidation<Validator> = content.parse()?;
+                    if attrs.validation.is_some() {
+                        return Err(duplicate_attribute_error(&ident));
+                    }
                     attrs.validation = Some(validation);
                 } else {
                     let msg = concat!(
@@ -278,6 +287,10 @@ where
                     let content;
                     parenthesized!(content in input);
                     let items = content.parse_terminated(SpannedDeriveTrait::parse, Token![,])?;
+                    if seen_derive {
+                        return Err(duplicate_attribute_error(&ident));
+                    }
+                    seen_derive = true;
                     attrs.derive_traits = items.into_iter().collect();
                 } else {
                     let msg = concat!(
@@ -290,6 +303,9 @@ where
             } else if ident == "default" {
                 let _eq: Token![=] = input.parse()?;
                 let default_expr: Expr = input.parse()?;
+                if attrs.default.is_some() {
+                    return Err(duplicate_attribute_error(&ident));
+                }
                 attrs.default = Some(default_expr);
             } else if ident == "const_fn" {
                 attrs.const_fn = ConstFn::Const;
@@ -319,6 +335,13 @@ where
 
         Ok(attrs)
     }
+}
+
+/// A second `sanitize(..)`, `validate(..)`, `derive(..)` or `default = ..` would silently
+/// replace the first one, so it is refused.
+fn duplicate_attribute_error(ident: &Ident) -> syn::Error {
+    let msg = format!("Attribute `{ident}` is specified more than once.");
+    syn::Error::new(ident.span(), msg)
 }
 
 pub fn parse_number<T>(input: ParseStream) -> syn::Result<(T, Span)>
